@@ -1156,7 +1156,7 @@ FIXED_CASES = [
 def gen_cases(ctx):
     g = Gen(ctx.rng)
     cases = []
-    n = ctx.budget(5400, 30000)
+    n = ctx.budget(4860, 30000)
     triples = [(a, b, c) for a in COMPR for b in COMPR for c in COMPR]
     for i in range(n):
         t = triples[i % 27]
@@ -1307,18 +1307,29 @@ def oracle(ctx, broken, hints):
     failures = []
     seen = set()
     checked = 0
-    for k, fj, n_obs in parallel(ctx, _worker_oracle, cases, "o"):
-        checked += n_obs
-        f = Failure(**json.loads(fj)) if fj is not None else None
-        if f is not None:
-            key = f.what
-            if key not in seen or len(failures) < 5:
-                seen.add(key)
-                failures.append(f)
-            if len(failures) >= 20:
-                break
+    evaluated = 0
+    # in batches, hints / fixed cases / corpus first: once a batch has produced failing inputs the search stops
+    # (after a broken obligation the budget is large; a failing input is usually found in the first batch)
+    first = len(cases) - n + min(n, 600)
+    batches = [cases[:first]] + [cases[i:i + 2400] for i in range(first, len(cases), 2400)]
+    for batch in batches:
+        if not batch:
+            continue
+        evaluated += len(batch)
+        for k, fj, n_obs in parallel(ctx, _worker_oracle, batch, "o"):
+            checked += n_obs
+            f = Failure(**json.loads(fj)) if fj is not None else None
+            if f is not None:
+                key = f.what
+                if key not in seen or len(failures) < 5:
+                    seen.add(key)
+                    failures.append(f)
+                if len(failures) >= 20:
+                    break
+        if failures:
+            break
     failures.sort(key=lambda f: len(core.canon(f.input)))
-    return {"evaluations": len(cases), "observations_checked": checked, "failures": failures,
+    return {"evaluations": evaluated, "observations_checked": checked, "failures": failures,
             "large_budget": bool(broken)}
 
 
